@@ -231,6 +231,41 @@ theorem verify_cert_uses_configured_name :
       [("_server_name", ["__init__"]), ("_cadata", ["__init__"]), ("_cafile", ["__init__"]),
        ("_capath", ["__init__"]), ("_verify_mode", ["__init__"])] := ⟨rfl, rfl⟩
 
+/-- the authentication values are the ones of RFC 8446 §4.4 (data flow extracted from tls.py):
+
+    * §4.4.3 CertificateVerify: the signature field of the message is verified with the public
+      key of the PEER CERTIFICATE over `64 x 0x20 || context string || 0x00 || Transcript-Hash`,
+      the context string being the peer's ("TLS 1.3, server CertificateVerify" on a client), with
+      the parameters of the algorithm named in the message;
+    * §4.4.4 Finished: the received `verify_data` is compared with
+      `HMAC(HKDF-Expand-Label(BaseKey, "finished", "", Hash.length), Transcript-Hash)` where BaseKey
+      is the READ traffic secret (`_dec_key`), on both roles; the server's expected value is the one
+      computed by `_server_expect_finished`;
+    * `_dec_key` / `_enc_key` are only written by `_setup_traffic_protection` (the secret it just
+      derived for the given direction) and, after the respective Finished, by the 1-RTT commit — so
+      with `order_matches_rfc` the BaseKey at the Finished checks is the peer's handshake traffic
+      secret ("s hs traffic" on the client, "c hs traffic" on the server) and the Transcript-Hash
+      is the running hash at that point of the order (`transcript_coverage`). -/
+theorem auth_values_are_rfc : authFlow = [
+      ("sig.key", "self._peer_certificate.public_key()"),
+      ("sig.signature", "verify.signature"),
+      ("sig.data", "self.key_schedule.certificate_verify_data(SERVER_CONTEXT_STRING if self._is_client else CLIENT_CONTEXT_STRING)"),
+      ("sig.params", "*signature_algorithm_params(verify.algorithm)"),
+      ("finished._client_handle_finished.received", "finished.verify_data"),
+      ("finished._client_handle_finished.expected", "self.key_schedule.finished_verify_data(self._dec_key)"),
+      ("finished._server_handle_finished.received", "finished.verify_data"),
+      ("finished._server_handle_finished.expected", "self.key_schedule.finished_verify_data(self._dec_key)"),
+      ("KeySchedule.certificate_verify_data", "return b' ' * 64 + context_string + b'\\x00' + self.hash.copy().finalize()"),
+      ("KeySchedule.finished_verify_data", "hmac_key = hkdf_expand_label(algorithm=self.algorithm, secret=secret, label=b'finished', hash_value=b'', length=self.algorithm.digest_size); h = hmac.HMAC(hmac_key, algorithm=self.algorithm); h.update(self.hash.copy().finalize()); return h.finalize()"),
+      ("KeySchedule.derive_secret", "return hkdf_expand_label(algorithm=self.algorithm, secret=self.secret, label=label, hash_value=self.hash.copy().finalize(), length=self.algorithm.digest_size)"),
+      ("KeySchedule.update_hash", "self.hash.update(data)"),
+      ("_setup_traffic_protection", "key = self.key_schedule.derive_secret(label); if direction == Direction.ENCRYPT:     self._enc_key = key else:     self._dec_key = key; self.update_traffic_key_cb(direction, epoch, self.key_schedule.cipher_suite, key)"),
+      ("writers._enc_key", "__init__: None | _client_handle_finished: next_enc_key | _setup_traffic_protection: key"),
+      ("writers._dec_key", "__init__: None | _server_handle_finished: self._next_dec_key | _setup_traffic_protection: key"),
+      ("writers._expected_verify_data", "_server_expect_finished: self.key_schedule.finished_verify_data(self._dec_key)"),
+      ("CLIENT_CONTEXT_STRING", "TLS 1.3, client CertificateVerify"),
+      ("SERVER_CONTEXT_STRING", "TLS 1.3, server CertificateVerify")] := rfl
+
 /-! ### no common option — no progress -/
 
 def isProgress : Act → Bool
@@ -343,6 +378,70 @@ theorem finished_flip_blocks (P : Prims Msg H K Tag) (r s : View Msg K Tag)
   intro ha
   exact hne (hu _ ha)
 
+/-- `agreement_partial`, strengthened: both endpoints completed ⇒ the SAME
+    transcript on both sides up to each Finished, hence — for every handshake
+    shape (with or without CertificateRequest / client Certificate flight, with
+    or without PSK) — the same report (cipher suite, resumption flag, ALPN, 0-RTT
+    offered / accepted, client and server QUIC transport parameters incl.
+    version information) and the same early / handshake / application /
+    resumption secrets, given the same input keying material -/
+theorem agreement_full_partial {Suite Alpn TP IKM PSK Sec : Type} (P : Prims Msg H K Tag) (c s : View Msg K Tag)
+    (F : Fields Msg Suite Alpn TP) (kdf : IKM → PSK → H → Nat → Sec) (finMsg : Tag → Msg)
+    (ikmC ikmS : IKM) (pskC pskS : PSK)
+    (hh : HashInjective P) (hm : MacInjective P)
+    (huc : Unforgeable P c s) (hus : Unforgeable P s c)
+    (hcs : c.honest P) (hss : s.honest P) (hca : c.accepts P) (hsa : s.accepts P)
+    -- same key shares and same PSK identity in the same transcript give the same keying material
+    (hdh : c.prefixIn = s.prefixOut → ikmC = ikmS) (hpsk : c.prefixIn = s.prefixOut → pskC = pskS) :
+    report F c.prefixOut = report F s.prefixIn ∧
+    report F c.prefixIn = report F s.prefixOut ∧
+    secrets P kdf ikmC pskC c.prefixOut c.prefixIn.length (finMsg c.sent)
+      = secrets P kdf ikmS pskS s.prefixIn s.prefixOut.length (finMsg s.received) := by
+  have h1 := (finished_binds_transcript P c s hh hm huc hss hca).1
+  have h2 := (finished_binds_transcript P s c hh hm hus hcs hsa).1
+  have h3 : s.received = c.sent := hus _ hsa
+  refine ⟨by rw [h2], by rw [h1], ?_⟩
+  rw [h2, h1, hdh h1, hpsk h1, h3]
+
+/-- `byte_flip_blocks_partial` in BOTH directions and for EVERY handshake
+    message before a Finished: ClientHello, ServerHello, EncryptedExtensions,
+    CertificateRequest, Certificate, CertificateVerify towards the client (any
+    position of the server's transcript before its Finished, the ClientHello
+    included since the server hashed the altered one it received), and
+    ClientHello, the client's Certificate / CertificateVerify and the echoed
+    server flight towards the server (any position of the client's transcript
+    before its Finished); the two Finished messages themselves by
+    `finished_flip_blocks` -/
+theorem byte_flip_blocks_both_directions (P : Prims Msg H K Tag) (c s : View Msg K Tag)
+    (hh : HashInjective P) (hm : MacInjective P) (huc : Unforgeable P c s) (hus : Unforgeable P s c)
+    (hcs : c.honest P) (hss : s.honest P) :
+    (∀ i m', ∀ hi : i < s.prefixOut.length, s.prefixOut[i] ≠ m' →
+        c.prefixIn = alter s.prefixOut i m' → ¬ c.accepts P) ∧
+    (∀ i m', ∀ hi : i < c.prefixOut.length, c.prefixOut[i] ≠ m' →
+        s.prefixIn = alter c.prefixOut i m' → ¬ s.accepts P) ∧
+    (c.received ≠ s.sent → ¬ c.accepts P) ∧ (s.received ≠ c.sent → ¬ s.accepts P) :=
+  ⟨fun i m' hi hne hr => byte_flip_blocks_partial P c s hh hm huc hss i m' hi hne hr,
+   fun i m' hi hne hr => byte_flip_blocks_partial P s c hh hm hus hcs i m' hi hne hr,
+   finished_flip_blocks P c s huc, finished_flip_blocks P s c hus⟩
+
+/-! What keeps these statements `_partial` (they cannot be closed inside this development):
+
+  1. cryptography is symbolic: `HashInjective`, `MacInjective`, `Unforgeable` stand for the
+     collision resistance of SHA-256/384, the PRF/MAC security of HMAC and the secrecy of the
+     handshake traffic secrets (which itself rests on (EC)DHE and on the authentication of the key
+     share by CertificateVerify / the PSK); a computational statement needs a game-based model;
+  2. `hdh` / `hpsk` (same keying material from the same transcript) are the correctness of
+     X25519 / X448 / ECDH and of the ticket store — external libraries and application callbacks;
+  3. `View` is an abstraction of tls.py: that each endpoint MACs exactly its running transcript with
+     its read / write handshake secret is proved for the extracted machine (`order_matches_rfc`,
+     `auth_values_are_rfc`), but the refinement from the byte-level Python objects (Buffer slices,
+     hashlib state) to `List Msg` is checked by the correspondence runs, not proved;
+  4. `Fields`: that the reported values are the fields of ClientHello / ServerHello /
+     EncryptedExtensions (the server writes what it negotiated, the client reads it) is observed on
+     real connection pairs over the configuration lattice (checks/c03.py), not extracted;
+  5. byte flips in NewSessionTicket (after completion) and in 0-RTT application data are outside
+     the handshake transcript and outside this property. -/
+
 /-- the hypotheses are satisfiable: a concrete injective instantiation -/
 example : ∃ P : Prims Nat (List Nat) Nat (Nat × List Nat), HashInjective P ∧ MacInjective P :=
   ⟨⟨id, fun k h => (k, h)⟩, fun _ _ h => h, fun _ _ _ _ h => by simpa using h⟩
@@ -355,6 +454,9 @@ end AQ.Props.C03
 #print axioms AQ.Props.C03.transcript_coverage
 #print axioms AQ.Props.C03.client_complete_authentic
 #print axioms AQ.Props.C03.verify_cert_uses_configured_name
+#print axioms AQ.Props.C03.auth_values_are_rfc
 #print axioms AQ.Props.C03.negotiation_first
 #print axioms AQ.Props.C03.agreement_partial
 #print axioms AQ.Props.C03.byte_flip_blocks_partial
+#print axioms AQ.Props.C03.agreement_full_partial
+#print axioms AQ.Props.C03.byte_flip_blocks_both_directions
